@@ -6,6 +6,7 @@ import (
 	"fmt"
 	"reflect"
 	"regexp"
+	"sort"
 	"strconv"
 	"strings"
 	"unicode"
@@ -24,7 +25,7 @@ func init() {
 		}
 		jUnmarshal(parseSx(p[0]), cfg, docs)
 	}
-	for _, sfx := range []string{"", ".nc", ".epo", ".tk", ".pp", ".num"} {
+	for _, sfx := range []string{"", ".nc", ".epo", ".tk", ".pp", ".num", ".qnum", ".qfloat"} {
 		replayers["j.unmarshal"+sfx] = f
 	}
 }
@@ -44,7 +45,11 @@ func jUnmarshal(t *sx, cfg int, docs [][]byte) {
 	args := fmt.Sprintf("%s|%d|%s", sxString(t), cfg, strings.Join(hs, "|"))
 	trace("j.unmarshal", args)
 	rt := jType(t)
-	fn := "j.unmarshal" + classSuffix(rt)
+	sfx := classSuffix(rt)
+	if sfx == ".tk" {
+		sfx = "" // string-kind keys with UnmarshalText: the package and encoding/json agree on the decode side
+	}
+	fn := "j.unmarshal" + sfx
 	if fn == "j.unmarshal" {
 		ts := sxString(t)
 		switch {
@@ -52,6 +57,8 @@ func jUnmarshal(t *sx, cfg int, docs [][]byte) {
 			fn += ".pp" // F31: null into a **T whose outer pointer is set
 		case strings.Contains(ts, "Number") && hasQuotedJSONNumber(docs):
 			fn += ".num" // F14: a quoted number decoded into a json.Number
+		case strings.Contains(ts, "Number") && strings.Contains(ts, ",string") && hasQuotedNumberLike(docs):
+			fn += ".qnum" // F45: a ,string Number whose quoted content starts like a number but is not one
 		case strings.Contains(ts, ",string") && (strings.Contains(ts, "f32") || strings.Contains(ts, "f64")) && hasQuotedNonJSONFloat(docs):
 			fn += ".qfloat"
 		}
@@ -231,6 +238,10 @@ func mutateDoc(d []byte) []byte {
 			if locs := keyRE.FindAllIndex(m, -1); len(locs) > 0 {
 				l := locs[rndn(len(locs))]
 				// "key": -> "key\u0000":  (an unknown key that differs from a field name only by trailing zero bytes)
+				if rndBool() { // a prefix strconv accepts in an integer key but a JSON number does not allow
+					pre := pick([]string{"0", "00", "+", "-", " "})
+					return append(append(append([]byte(nil), m[:l[0]+1]...), pre...), m[l[0]+1:]...)
+				}
 				ins := pick([]string{`\u0000`, `\u0000\u0000`, ` `})
 				return append(append(append([]byte(nil), m[:l[1]-2]...), ins...), m[l[1]-2:]...)
 			}
@@ -257,12 +268,74 @@ func mutateDoc(d []byte) []byte {
 	case 7: // wrap / unwrap
 		return []byte("[" + string(m) + "]")
 	case 6:
+		// white space INSIDE the quotes of a string member value, at its end or start (the quoted scalars of ,string
+		// fields: "true ", " 1.5", "12\t" are not what encoding/json accepts)
+		if rndBool() {
+			if locs := stringValueRE.FindAllIndex(m, -1); len(locs) > 0 {
+				l := locs[rndn(len(locs))]
+				ws := pick([]string{" ", "  ", `\t`, `\n`, `\r`, ` \r`})
+				at := l[1] - 1
+				if rndn(4) == 0 {
+					at = l[0] + 2
+				}
+				return append(append(append([]byte(nil), m[:at]...), ws...), m[at:]...)
+			}
+		}
 		return []byte(" \n" + string(m) + "\t ")
 	}
 	return m
 }
 
+// jPrepop: destinations populated by Go code before decoding, in ways no earlier decode can produce: interfaces
+// holding typed nil pointers, non-nil pointers (decoded INTO, as encoding/json does), pointers to pointers
+func jPrepop() {
+	type T struct {
+		A int
+		B any
+	}
+	mk := []func() any{
+		func() any { var x any = (*int)(nil); return &x },
+		func() any { var x any = (*T)(nil); return &x },
+		func() any { var x NamedAny = (*T)(nil); return &x },
+		func() any { return &struct{ A, B any }{A: (*int)(nil), B: (*T)(nil)} },
+		func() any { return &[]any{(*int)(nil), 1, (*T)(nil)} },
+		func() any { return &map[string]any{"k": (*int)(nil), "A": (*T)(nil)} },
+		func() any { n := 7; var x any = &n; return &x },
+		func() any { var x any = &T{A: 1}; return &x },
+		func() any { var x NamedAny = &T{A: 1, B: (*int)(nil)}; return &x },
+		func() any { n := 7; pn := &n; var x any = &pn; return &x },
+		func() any { var pn *int; var x any = &pn; return &x },
+		func() any { return &T{B: &T{A: 2}} },
+		func() any { var x any = map[string]any{"A": (*int)(nil)}; return &x },
+	}
+	docs := []string{`1`, `"s"`, `null`, `true`, `{"A":2}`, `{"A":2,"B":{"A":3}}`, `{"B":null}`, `[1]`, `[null,null,null]`, `{"k":5,"A":{"A":6}}`, `{"A":"x"}`, `1.5`, `[]`, `{}`}
+	for i, m := range mk {
+		for _, d := range docs {
+			if !mine() {
+				skip()
+				continue
+			}
+			args := fmt.Sprintf("%d %s", i, hexs([]byte(d)))
+			var orc string
+			impl := guarded(func() string {
+				a, b := m(), m()
+				e1, e2 := json.Unmarshal([]byte(d), a), stdjson.Unmarshal([]byte(d), b)
+				orc = "err"
+				if e2 == nil {
+					orc = "ok:" + deepString(reflect.ValueOf(b).Elem(), 0)
+				}
+				if e1 != nil {
+					return "err"
+				}
+				return "ok:" + deepString(reflect.ValueOf(a).Elem(), 0)
+			})
+			emit("j.prepop", args, impl, orc)
+		}
+	}
+}
+
 func c02() {
+	jPrepop()
 	g := &jgen{maxDepth: 3, forDecode: true}
 	nT := 400
 	if *tier == "thorough" {
@@ -300,6 +373,24 @@ func c02() {
 		// carry scratch state from the previous member)
 		if len(valid) > 0 {
 			for _, d := range nullifyEach(valid[0], 4) {
+				jUnmarshal(t, rndn(6), [][]byte{d})
+			}
+		}
+		if len(valid) > 0 {
+			for _, d := range nullifyElems(pick(valid), 3) {
+				jUnmarshal(t, rndn(6), [][]byte{d})
+			}
+			for _, d := range nullMembers(pick(valid), 3) {
+				jUnmarshal(t, rndn(6), [][]byte{d})
+				if rndn(3) == 0 {
+					jUnmarshal(t, rndn(6), [][]byte{pick(valid), d})
+				}
+			}
+		}
+		// quoted scalars (,string fields, Number, Time, Duration, integer and text map keys are near): white space inside
+		// the quotes
+		if len(valid) > 0 && (strings.Contains(sxString(t), ",string") || rndn(4) == 0) {
+			for _, d := range innerSpaceEach(pick(valid), 6) {
 				jUnmarshal(t, rndn(6), [][]byte{d})
 			}
 		}
@@ -385,6 +476,20 @@ func docsContain(docs [][]byte, sub string) bool {
 }
 
 // hasQuotedJSONNumber: some document contains a string token whose content is a JSON number
+var numberLikeRE = regexp.MustCompile(`"(-?[0-9](?:[^"\\]|\\.)*)"`)
+
+// hasQuotedNumberLike: a string token whose content starts like a number (-?digit) and is not a JSON number
+func hasQuotedNumberLike(docs [][]byte) bool {
+	for _, d := range docs {
+		for _, m := range numberLikeRE.FindAllSubmatch(d, -1) {
+			if bytes.IndexByte(m[1], '\\') >= 0 || !stdjson.Valid(m[1]) {
+				return true
+			}
+		}
+	}
+	return false
+}
+
 func hasQuotedJSONNumber(docs [][]byte) bool {
 	for _, d := range docs {
 		for _, m := range quotedTokenRE.FindAllSubmatch(d, -1) {
@@ -404,6 +509,68 @@ func nullifyEach(d []byte, n int) [][]byte {
 	for i := len(locs) - 1; i >= 0 && len(out) < n; i-- {
 		l := locs[i]
 		out = append(out, append(append(append([]byte(nil), d[:l[0]+1]...), "null"...), d[l[1]:]...))
+	}
+	return out
+}
+
+// nullMembers: for the members of a top-level object, the one-member document {key:null} and the whole document
+// with that member's value replaced by null (a null for a field promoted through a nil embedded pointer still
+// allocates the embedded struct in encoding/json; null into maps, slices, pointers, interfaces clears them)
+func nullMembers(d []byte, n int) [][]byte {
+	var m map[string]stdjson.RawMessage
+	if stdjson.Unmarshal(d, &m) != nil {
+		return nil
+	}
+	var keys []string
+	for k := range m {
+		keys = append(keys, k)
+	}
+	sort.Strings(keys)
+	var out [][]byte
+	for len(keys) > 0 && len(out) < 2*n {
+		i := rndn(len(keys))
+		k := keys[i]
+		keys = append(keys[:i], keys[i+1:]...)
+		kb, _ := stdjson.Marshal(k)
+		out = append(out, []byte("{"+string(kb)+":null}"))
+		m2 := map[string]stdjson.RawMessage{}
+		for kk, vv := range m {
+			m2[kk] = vv
+		}
+		m2[k] = stdjson.RawMessage("null")
+		if b, err := stdjson.Marshal(m2); err == nil {
+			out = append(out, b)
+		}
+	}
+	return out
+}
+
+var stringElemRE = regexp.MustCompile(`[\[,]("[^"\\]*")[,\]]`)
+
+// nullifyElems: string ELEMENTS of arrays replaced by null, one at a time (a decoder reusing a scratch slice between
+// map entries or documents must not show the previous occupant of the slot)
+func nullifyElems(d []byte, n int) [][]byte {
+	locs := stringElemRE.FindAllSubmatchIndex(d, -1)
+	var out [][]byte
+	for i := len(locs) - 1; i >= 0 && len(out) < n; i-- {
+		l := locs[i]
+		out = append(out, append(append(append([]byte(nil), d[:l[2]]...), "null"...), d[l[3]:]...))
+	}
+	return out
+}
+
+// innerSpaceEach: white space put inside the quotes of each string member value in turn (end or start of the content)
+func innerSpaceEach(d []byte, n int) [][]byte {
+	locs := stringValueRE.FindAllIndex(d, -1)
+	var out [][]byte
+	for i := len(locs) - 1; i >= 0 && len(out) < n; i-- {
+		l := locs[i]
+		ws := pick([]string{" ", "  ", `\t`, `\n`, `\r`, ` \r`})
+		at := l[1] - 1
+		if rndn(4) == 0 {
+			at = l[0] + 2
+		}
+		out = append(out, append(append(append([]byte(nil), d[:at]...), ws...), d[at:]...))
 	}
 	return out
 }
